@@ -12,7 +12,9 @@
    [RNode tag t d]: the infoset t (an element called tag) represents the document d, in the canonical
    layout (attributes in the order above, children grouped in the order above).  AN ABSENT OPTIONAL HAS NO
    ATTRIBUTE.  The property: what the writer produces for d represents d, and the reader returns d on
-   whatever represents d — hence reading back what was written gives d. *)
+   whatever represents d — hence reading back what was written gives d.  (Before fix commit 34e4ce52 the
+   writer emitted an empty attribute for an absent optional and the property failed; no deviation class is
+   left.) *)
 From ZV Require Import Base.Bytes Base.Res C34.Model.
 
 Section Spec.
@@ -80,16 +82,4 @@ Section Spec.
                                                   match l with [] => True | x :: r => wf_node x /\ all r end) ns
     end.
 
-  (* ---- the known-deviation class: some optional of the document is absent ---- *)
-  Definition arg_none (a : arg sigT) : bool :=
-    match ar_name _ a, ar_dir _ a with Some _, Some _ => false | _, _ => true end.
-  Definition iface_none (i : iface sigT) : bool :=
-    existsb (fun m => existsb arg_none (m_args _ m)) (i_methods _ i) ||
-    existsb (fun m => existsb arg_none (s_args _ m)) (i_signals _ i).
-  Fixpoint node_none (n : node sigT) : bool :=
-    match n with
-    | Node _ name ifs ns =>
-        match name with None => true | Some _ => false end || existsb iface_none ifs || existsb node_none ns
-    end.
-  Definition Known_C34 (d : node sigT) : Prop := node_none d = true.
 End Spec.
